@@ -67,6 +67,10 @@ pub struct Inputs {
 }
 
 pub fn inputs(tier: Tier) -> Inputs {
+    inputs_seq(tier, 3)
+}
+
+pub fn inputs_seq(tier: Tier, seq_len: usize) -> Inputs {
     let corpus = dedup_docs(corpus());
     let mut nb = Vec::new();
     for d in &corpus {
@@ -75,7 +79,7 @@ pub fn inputs(tier: Tier) -> Inputs {
         }
         nb.extend(single_edit_neighbours(d, &MARKERS));
     }
-    let sequences = dedup_docs(token_sequences(&tokens(), tier.pick(3, 3)));
+    let sequences = dedup_docs(token_sequences(&tokens(), seq_len));
     Inputs { corpus, neighbours: dedup_docs(nb), sequences }
 }
 
